@@ -236,11 +236,13 @@ class Case:
                     nm = p["name"].replace("$q", qname)
                     ps.append((nm + " " + ts).strip())
                 rs = []
-                for t in m["results"]:
+                for ri, t in enumerate(m["results"]):
                     for pk in refs(t):
                         used.add(pk)
-                    rs.append(go_type(t, quals, self.cn))
-                res = "" if not rs else (" " + rs[0] if len(rs) == 1 else " (" + ", ".join(rs) + ")")
+                    # results are named: the helper names the templates derive for unnamed results come from the ORIGINAL
+                    # type, which would make the replaced mock differ from its native twin in an irrelevant way
+                    rs.append(f"r{ri} " + go_type(t, quals, self.cn))
+                res = "" if not rs else " (" + ", ".join(rs) + ")"
                 lines.append(f"\t{m['name']}({', '.join(ps)}){res}")
             lines.append("}")
             lines.append("")
@@ -329,7 +331,7 @@ class Case:
     def group_key(self):
         if self.level != "root":
             return None
-        return (self.srckind, self.target, self.id if self.target == "dstpkg" else "")
+        return (self.srckind, self.target, self.kinds, self.id if self.target == "dstpkg" else "")
 
 
 def refs(t):
@@ -545,56 +547,149 @@ def matches(o, oc):
 
 # ---------------------------------------------------------------------------------------------- compile oracle
 def build_tree(ctx, tree, cases, idpat=r"/(k\d+)/"):
-    """-> {case id: error text} for cases whose packages do not load / compile."""
-    rc, out, err = ctx.go(tree, "list", "-e", "-json=ImportPath,Error,DepsErrors", "./...", timeout=900)
-    if rc != 0:
-        raise MachineryError("go list failed: " + err[-800:])
-    dec = json.JSONDecoder()
-    i = 0
-    pkgs = []
-    s = out
-    while True:
-        while i < len(s) and s[i].isspace():
-            i += 1
-        if i >= len(s):
-            break
-        o, i = dec.raw_decode(s, i)
-        pkgs.append(o)
-    bad = {}
-    good = []
-    for p in pkgs:
-        e = p.get("Error") or (p.get("DepsErrors") or [None])[0]
-        if e:
-            bad[p["ImportPath"]] = e.get("Err", "load error")
-        else:
-            good.append(p["ImportPath"])
-    errs = {}
-    if good:
-        (tree / "cfg").mkdir(exist_ok=True)
-        # one go build over all loadable packages; errors are reported per package under a '# path' header
-        rc, out, err = ctx.go(tree, "build", *good, timeout=1800)
-        cur = None
-        for ln in (err + out).splitlines():
-            m = re.match(r"^# (\S+)", ln)
-            if m:
-                cur = m.group(1)
-                errs.setdefault(cur, [])
-                continue
-            if cur is None:
-                if ln.strip():
-                    raise MachineryError("unattributable go build output: " + ln[:300])
-                continue
-            errs[cur].append(ln)
-        if rc != 0 and not errs:
-            raise MachineryError("go build failed without per-package errors: " + (err + out)[-600:])
+    """-> {case id: error text} for cases whose packages do not load / type-check.
+    The whole module is type-checked from source in one process (drivers/replacecheck, go/packages): same verdict as
+    `go build ./...` for these packages, but nothing is compiled and nothing lands in the shared Go build cache
+    (a tree has thousands of throw-away packages)."""
+    chk = ctx.build_driver("replacecheck")
+    outp = tree / "cfg" / "typecheck.json"
+    outp.parent.mkdir(exist_ok=True)
+    p = subprocess.run([str(chk), str(tree), str(outp)], capture_output=True, text=True, timeout=3000, env=vlib.go_env())
+    if p.returncode != 0:
+        raise MachineryError("replacecheck driver failed: " + (p.stderr or p.stdout)[-800:])
     res = {}
-    for path, e in list(bad.items()) + [(k, "\n".join(v)) for k, v in errs.items()]:
+    for path, errs in json.loads(outp.read_text()).items():
+        e = "\n".join(errs)
+        if "no space left on device" in e or "cannot find package" in e and "example.com" not in e:
+            raise MachineryError("environment problem while type-checking: " + e[:400])
         m = re.match(re.escape(MOD) + idpat, path + "/")
         if not m:
-            raise MachineryError(f"package {path} outside any case does not build: {e[:300]}")
+            raise MachineryError(f"package {path} outside any case does not type-check: {e[:300]}")
         res.setdefault(m.group(1), "")
         res[m.group(1)] += f"{path}: {e}\n"
     return res
+
+
+
+# ---------------------------------------------------------------------------------------------- native twin
+TWIN_QUALS = None
+
+
+def twin_type(t, c):
+    """concrete term (import paths) of the observed mock -> Go type as written in the twin source package"""
+    k = t["k"]
+    if k == "named":
+        q = {PKGS["orig"][0]: "foo.", PKGS["same"][0]: "foo2.", PKGS["alt"][0]: "bar.", PKGS["third"][0]: "legacy.", c.dstpath: ""}.get(t["p"])
+        if q is None:
+            raise MachineryError(f"twin: type from unexpected package {t['p']}")
+        return q + t["n"]
+    if k in ("basic", "raw"):
+        return t["n"]
+    a = t["a"]
+    if k == "ptr":
+        return "*" + twin_type(a[0], c)
+    if k == "slice":
+        return "[]" + twin_type(a[0], c)
+    if k == "map":
+        return "map[" + twin_type(a[0], c) + "]" + twin_type(a[1], c)
+    if k == "chan":
+        return "chan " + twin_type(a[0], c)
+    if k == "func":
+        return "func(" + twin_type(a[0], c) + ") " + twin_type(a[1], c)
+    raise MachineryError("twin: cannot render " + json.dumps(t))
+
+
+def twin_eligible(c):
+    # one mock per interface (otherwise there is no single native interface to compare with); the twin of a mock whose
+    # replacement lives in its own separate destination package would need the source to import the mocks package
+    return c.templ != "probe" and c.level not in ("entry2", "entry2x", "entry2y") and not (c.target == "dstpkg" and c.place == "separate")
+
+
+def twin_sources(c, ob):
+    """the interfaces of the case written NATIVELY with the types (and parameter names) the mock was rendered with"""
+    used, lines = set(), []
+    for mk in c.rec["base"]["mocks"]:
+        lines.append(f"type {mk['iface']} interface {{")
+        for m in mk["methods"]:
+            hit = [x for x in ob["raw_methods"] if x["recv"] == mk["struct"] and x["name"] == m["name"]][0]
+            ps = []
+            for i, (nm, t) in enumerate(zip(hit["pnames"], hit["params"])):
+                ts = twin_type(t, c)
+                if hit["variadic"] and i == len(hit["params"]) - 1:
+                    ts = "..." + ts[2:]
+                ps.append(f"{nm} {ts}")
+                used |= {x for x in term_paths(t)}
+            rs = [f"r{ri} " + twin_type(t, c) for ri, t in enumerate(hit["results"])]
+            for t in hit["results"]:
+                used |= {x for x in term_paths(t)}
+            res = "" if not rs else " (" + ", ".join(rs) + ")"
+            lines.append(f"\t{m['name']}({', '.join(ps)}){res}")
+        lines += ["}", ""]
+    imps = []
+    for pid, q in (("orig", ""), ("same", "foo2 "), ("alt", ""), ("third", "")):
+        if PKGS[pid][0] in used:
+            imps.append(f'\t{q}"{PKGS[pid][0]}"')
+    src = ["package src", ""]
+    if imps:
+        src += ["import ("] + imps + [")", ""]
+    if c.target == "dstpkg":
+        src += [c.d_decl(), ""]
+    return {f"{c.id}/twin/src/src.go": "\n".join(src + lines)}
+
+
+def term_paths(t):
+    if t["k"] == "named":
+        return {t["p"]}
+    out = set()
+    for x in t["a"]:
+        out |= term_paths(x)
+    return out
+
+
+def twin_check(ctx, binp, treeB, cases, obsB, bi, timing):
+    """"replace == native twin": the mock rendered under the setting must be, byte for byte, the mock mockery renders
+    WITHOUT the setting for an interface whose signature is written with the replacement type directly."""
+    t0 = time.time()
+    files = dict(SHARED)
+    for c in cases:
+        files.update(twin_sources(c, obsB[c.id]))
+    tree = ctx.new_world(files, module=MOD, name=f"treeT{bi}")
+
+    def conf_of(c):
+        e = c.pkg_config(False, "unused")
+        e.pop("interfaces", None)
+        e["config"]["dir"] = f"{c.id}/twin/src" if c.place == "inpkg" else f"{c.id}/twin/mocks"
+        return e
+
+    def one(chunk):
+        i, cs = chunk
+        cfgp = tree / f"mockery-t{i}.yml"
+        cfgp.write_text(json.dumps({"log-level": "info", "packages": {f"{MOD}/{c.id}/twin/src": conf_of(c) for c in cs}}))
+        p = subprocess.run([str(binp), "--config", str(cfgp)], cwd=tree, env=vlib.go_env(), capture_output=True, text=True,
+                           timeout=600, errors="replace")
+        return cs, p
+    chunks = [(i, cases[i::8]) for i in range(8) if cases[i::8]]
+    with cf.ThreadPoolExecutor(max_workers=8) as ex:
+        results = list(ex.map(one, chunks))
+    n = 0
+    bad = {}
+    for cs, p in results:
+        if p.returncode != 0:
+            raise MachineryError("twin run (no replace-type involved) failed: " + (p.stderr + p.stdout)[-800:])
+        for c in cs:
+            tw = tree / (f"{c.id}/twin/src" if c.place == "inpkg" else f"{c.id}/twin/mocks") / c.filename
+            a = (treeB / c.file).read_text()
+            b = tw.read_text().replace(f'"{MOD}/{c.id}/twin/src"', f'"{c.srcpath}"')
+            n += 1
+            if a != b:
+                import difflib
+                d = list(difflib.unified_diff(b.splitlines(), a.splitlines(), "native twin (no setting)", "with replace-type", lineterm="", n=1))
+                bad[c.id] = "\n".join(d[:60])
+    ctx.cov["twin_comparisons"] = ctx.cov.get("twin_comparisons", 0) + n
+    timing["twin"] = round(timing.get("twin", 0) + time.time() - t0, 1)
+    if not os.environ.get("VERIF_KEEP"):
+        shutil.rmtree(tree, ignore_errors=True)
+    return bad
 
 
 # ---------------------------------------------------------------------------------------------- one batch
@@ -695,6 +790,16 @@ def process_batch(ctx, binp, drv, probe_path, cases, bi, thorough, timing):
             ctx.note(f"drift: case {c.dims} is accepted by the contract but differs from the Impl model of ReplaceType.tla")
     ctx.cov["evaluations"] += n_eval
 
+    # "replace == native twin" on everything the contract accepted so far
+    tw = [c for c in cases if verdict.get(c.id) is None and twin_eligible(c)]
+    if tw:
+        for cid, diff in twin_check(ctx, binp, treeB, tw, obsB, bi, timing).items():
+            c = next(x for x in tw if x.id == cid)
+            verdict[cid] = "twin"
+            ctx.violation(c.sig("twin"), {"case": {k: c.rec[k] for k in ("key", "to", "ifaces", "mocks")}, "config": c.pkg_config(True, "probe.templ"),
+                                          "why": "the mock rendered under replace-type differs from the mock rendered without the setting for "
+                                                 "the same interface written with the replacement type directly", "diff": diff})
+
     # predicted violations must reproduce (else the model's deviation is stale)
     for c in cases:
         if c.rec["predicted"] and verdict.get(c.id) is None and c.templ != "probe" and c.id not in buildB:
@@ -752,7 +857,7 @@ def process_batch(ctx, binp, drv, probe_path, cases, bi, thorough, timing):
     ctx.cov["traces_validated_against_impl"] += n_traces
     if (thorough or os.environ.get("VERIF_SELFTEST")) and bi == 0:
         hook_corruption_selftest(ctx, events, "ReplaceTypeTrace", "ReplaceTypeTrace.cfg")
-    py_rejected = {(cid, True) for cid, k in verdict.items() if k in ("sig", "imports", "compile")}
+    py_rejected = {(cid, True) for cid, k in verdict.items() if k in ("sig", "imports", "compile")}    # "twin" is not the trace spec's business
     if tlc_rejected != py_rejected:
         raise MachineryError("TLC (ReplaceTypeTrace.tla) and the harness disagree on which observations the contract rejects: "
                              f"only TLC {sorted(tlc_rejected - py_rejected)[:5]}, only harness {sorted(py_rejected - tlc_rejected)[:5]}")
@@ -1016,8 +1121,9 @@ def run(ctx):
         if len(lrecs) < 50:
             raise MachineryError(f"no-leak model exported only {len(lrecs)} cases")
         lrecs.sort(key=lambda r: (len(r["writes"]), json.dumps(r, sort_keys=True)))
-        small = [r for r in lrecs if len(r["writes"]) <= 2]
-        big = [r for r in lrecs if len(r["writes"]) > 2]
+        # quick: every single entry and every pair of entries written at two DIFFERENT levels; thorough: everything
+        small = [r for r in lrecs if len(r["writes"]) == 1 or (len(r["writes"]) == 2 and len({w[0] for w in r["writes"]}) == 2)]
+        big = [r for r in lrecs if r not in small]
         ctx.rng.shuffle(big)
         pick = small + (big if thorough else big[:4])
         if ctx.replay:
@@ -1052,7 +1158,7 @@ def run(ctx):
         chosen = [tuple(rp["sig"][d] for d in DIMS)]
         uncovered = 0
     else:
-        n = 6000 if thorough else 280
+        n = 6000 if thorough else 250
         chosen, uncovered = select_cases(rows, obsdims, ctx.rng, n, 40 if thorough else 6)
         for d in unexpected_pred[:20]:
             chosen.append(tuple(d) + ("testify", "min", "gofmt", "ss"))
@@ -1062,7 +1168,7 @@ def run(ctx):
     wanted = ",\n  ".join("<<" + ", ".join(json.dumps(x) for x in d) + ">>" for d in sem_wanted)
     wmod = f"---- MODULE ReplaceTypeW ----\nEXTENDS ReplaceTypeMC\nMCWanted == {{\n  {wanted} }}\n====\n"
     t_exp = time.time()
-    r2 = ctx.tlc("ReplaceTypeW", "ReplaceType_case.cfg", workers=1 if len(sem_wanted) < 1000 else 6, timeout=1800,
+    r2 = ctx.tlc("ReplaceTypeW", "ReplaceType_case.cfg", workers=4 if len(sem_wanted) < 1000 else 6, timeout=1800,
                  files={"ReplaceTypeW.tla": wmod}, count=False)
     t_exp = time.time() - t_exp
     if not r2.ok:
